@@ -61,6 +61,9 @@ class Ctx:
         self.fresh_n = 0
         self.solver = z3.Solver()
         self.solver.set('timeout', timeout_ms)
+        # feasibility pruning only needs refutations: no model-based quantifier instantiation
+        # (an `unknown` answer keeps the path, which is sound)
+        self.solver.set('smt.mbqi', False)
         self.events = []          # free-form log (model classes record frame events here)
         self.decisions = 0
         self.concrete_only = False
@@ -195,6 +198,12 @@ class Interp:
     def load_module(self, modname):
         if modname in self.modules:
             return self.modules[modname]
+        if '.' in modname:
+            parent = modname.rsplit('.', 1)[0]
+            if parent not in self.modules and self.find_module_file(parent) is not None:
+                self.load_module(parent)      # CPython imports parent packages first
+                if modname in self.modules:
+                    return self.modules[modname]
         path = self.find_module_file(modname)
         if path is None:
             m = self.lib.stub_module(modname)
@@ -1481,13 +1490,13 @@ class Interp:
                         return a / b
                 except TypeError as te:
                     self.raise_('TypeError', str(te))
-            if (isinstance(a, str) or isinstance(b, str)) and T is ast.Add:
+            if (isinstance(a, str) or isinstance(b, str) or type(a).__name__ in ('PartialLabel', 'UuidHex') or type(b).__name__ in ('PartialLabel', 'UuidHex')) and T is ast.Add:
                 return self.lib.str_concat([a, b])
             raise Unsupported(f'binop {T.__name__} on {type(a).__name__},{type(b).__name__}')
         # symbolic
         s_a = isinstance(a, Sym) and (a.is_label() or a.is_str())
         s_b = isinstance(b, Sym) and (b.is_label() or b.is_str())
-        if s_a or s_b or isinstance(a, str) or isinstance(b, str):
+        if s_a or s_b or isinstance(a, str) or isinstance(b, str) or type(a).__name__ in ('PartialLabel', 'UuidHex') or type(b).__name__ in ('PartialLabel', 'UuidHex'):
             if T is ast.Add:
                 return self.lib.str_concat([a, b])
             raise Unsupported('string op')
